@@ -117,6 +117,7 @@ func (e *Engine) verify2(t *Target) {
 	// a closure under contract (Durable.Add$1, ...): every captured variable is a fresh cell with arbitrary contents
 	var bind []Val
 	capVal := map[string]Val{}
+	capPtr := map[string]PtrV{}
 	for _, fv := range fn.FreeVars {
 		et := fv.Type().(*types.Pointer).Elem()
 		r := e.newRef(s)
@@ -127,6 +128,7 @@ func (e *Engine) verify2(t *Target) {
 		s.spec--
 		bind = append(bind, p)
 		capVal[fv.Name()] = v
+		capPtr[fv.Name()] = p
 	}
 	e.capVal = capVal
 	f := e.newFrame(s, fn, args, bind, nil, true)
@@ -207,6 +209,11 @@ func (e *Engine) verify2(t *Target) {
 						panic("contract " + pn + " names " + nm + " but the function has fewer results")
 					}
 					pa = append(pa, fs.ret[i])
+				case strings.HasPrefix(nm, "cur_") && hasCap(capPtr, nm[4:]): // a captured variable's value at exit
+					cp := capPtr[nm[4:]]
+					fs.spec++
+					pa = append(pa, e.load(fs, cp, cp.Elem))
+					fs.spec--
 				default:
 					if cv, ok := capVal[nm]; ok {
 						pa = append(pa, cv) // the captured variable's value at entry
@@ -214,6 +221,13 @@ func (e *Engine) verify2(t *Target) {
 						pa = append(pa, args[paramIndex(fn, nm)])
 					}
 				}
+			}
+			if os.Getenv("GOVC_SHOWTRACE") != "" && pn == t.D.Posts[0] {
+				var names []string
+				for _, ev := range fs.trace {
+					names = append(names, ev.Name)
+				}
+				fmt.Printf("TRACE %s: %s\n", t.Short, strings.Join(names, " | "))
 			}
 			// a conjunctive postcondition is discharged conjunct by conjunct (small VCs are the stable ones)
 			parts := e.conjuncts(e.evalPure(fs, post, pa, nil).(Term), 64)
@@ -376,7 +390,10 @@ func (e *Engine) discharge(tmo int) {
 	if os.Getenv("GOVC_KEEP") == "" { defer os.RemoveAll(dir) } else { fmt.Println("VCs kept in", dir) }
 	sort.SliceStable(e.obs, func(i, j int) bool { return e.obs[i].Name < e.obs[j].Name })
 	var wg sync.WaitGroup
-	par := runtime.NumCPU() * 2
+	par := runtime.NumCPU()
+	if v := os.Getenv("GOVC_PAR"); v != "" {
+		fmt.Sscanf(v, "%d", &par)
+	}
 	sem := make(chan struct{}, par)
 	// global budget: a run whose proofs start timing out (a changed tree) must still end in bounded time
 	budget := 240 * time.Second
@@ -440,3 +457,5 @@ func (e *Engine) conjuncts(t Term, max int) []Term {
 	}
 	return out
 }
+
+func hasCap(m map[string]PtrV, k string) bool { _, ok := m[k]; return ok }
